@@ -108,8 +108,9 @@ theorem validMethodIdAux_nodelim : ∀ v : Str, validMethodIdAux v = true →
           simp [stopId] at this; omega
         · exact ih rest.length (by simp at hn; omega) rest rfl hv.2 x hx
 
-/-- **shape of every accepted IOTA DID** -/
-theorem iota_shape (s : Str) (d : CoreDid) (h : parseLower s = .ok d) :
+/-- shape of what the validity check + normalisation accept -/
+theorem shape_checked (s : Str) (d0 d : CoreDid) (hp : parseDid s = .ok d0)
+    (h : tryFromCoreChecked d0 = .ok d) :
     d.method = method ∧
     validNetwork (network d) = true ∧
     (∃ bs, tagBytes d = some bs ∧ bs.length = 32 ∧ ∀ b ∈ bs, b < 256) ∧
@@ -117,19 +118,12 @@ theorem iota_shape (s : Str) (d : CoreDid) (h : parseLower s = .ok d) :
     d.str = [100, 105, 100, 58] ++ method ++ 58 :: d.methodId ∧
     (∀ c ∈ d.str, c ∈ s) ∧
     (∀ c ∈ d.str, c ≠ 47 ∧ c ≠ 63 ∧ c ≠ 35) := by
-  unfold parseLower at h
-  cases hp : parseDid s with
-  | panic m => rw [hp] at h; cases h
-  | err e => rw [hp] at h; cases h
-  | ok d0 =>
-    rw [hp] at h
-    simp only at h
-    obtain ⟨hstr, i, hcore, hge, hlt, h4, hi58, hvn, hvi, hrec⟩ := parseDid_ok_core s d0 hp
+  · obtain ⟨hstr, i, hcore, hge, hlt, h4, hi58, hvn, hvi, hrec⟩ := parseDid_ok_core s d0 hp
     have hm0 : d0.method = sl s 4 i := by
       unfold CoreDid.method Core.methodOf; rw [hstr, hcore]
     have hid0 : d0.methodId = s.drop (i + 1) := by
       unfold CoreDid.methodId Core.methodIdOf; rw [hstr, hcore]; exact sl_to_end s (i + 1)
-    unfold tryFromCore at h
+    unfold tryFromCoreChecked at h
     split at h
     · rename_i hcv
       unfold IotaDid.checkValidity at hcv
@@ -265,44 +259,112 @@ theorem iota_shape (s : Str) (d : CoreDid) (h : parseLower s = .ok d) :
           · rw [hstr]; exact hnodelim
     · cases h
 
-/-- `parse` on the lower-cased input never panics (the `expect` in `normalize` is unreachable) -/
+theorem asciiLower_no_upper (s : Str) : ∀ c ∈ asciiLower s, isUpper c = false := by
+  intro c hc
+  unfold asciiLower at hc
+  rcases List.mem_map.1 hc with ⟨x, _, hx⟩
+  subst hx
+  unfold isUpper
+  by_cases h : (decide (65 ≤ x) && decide (x ≤ 90)) = true
+  · have hh := h
+    simp only [Bool.and_eq_true, decide_eq_true_eq] at hh
+    simp only [isUpper, h, ↓reduceIte]
+    have : ¬ (x + 32 ≤ 90) := by omega
+    simp [this]
+  · simp only [isUpper, h, Bool.false_eq_true, ↓reduceIte]
+
+theorem tryFromCoreLowercases_eq : tryFromCoreLowercases = true := rfl
+
+/-- **shape of every accepted IOTA DID** (through `parse`, `try_from_core` / `TryFrom<CoreDID>`
+and deserialisation alike): method, network rule, 32-byte tag, normal form, recomposition,
+**lower case**, no URL parts -/
+theorem iota_shape (s : Str) (d : CoreDid) (h : parseLower s = .ok d) :
+    d.method = method ∧
+    validNetwork (network d) = true ∧
+    (∃ bs, tagBytes d = some bs ∧ bs.length = 32 ∧ ∀ b ∈ bs, b < 256) ∧
+    d.methodId = (if network d = defaultNetwork then tag d else network d ++ 58 :: tag d) ∧
+    d.str = [100, 105, 100, 58] ++ method ++ 58 :: d.methodId ∧
+    (∀ c ∈ d.str, isUpper c = false) ∧
+    (∀ c ∈ d.str, c ≠ 47 ∧ c ≠ 63 ∧ c ≠ 35) := by
+  unfold parseLower at h
+  cases hp : parseDid s with
+  | panic m => rw [hp] at h; cases h
+  | err e => rw [hp] at h; cases h
+  | ok d0 =>
+    rw [hp] at h
+    simp only at h
+    have hstr : d0.str = s := (parseDid_ok_core s d0 hp).1
+    unfold tryFromCore at h
+    by_cases hu : d0.str.any isUpper = true
+    · simp only [tryFromCoreLowercases_eq, hu, Bool.and_self, ↓reduceIte] at h
+      cases hp2 : parseDid (asciiLower d0.str) with
+      | panic m => rw [hp2] at h; cases h
+      | err e => rw [hp2] at h; cases h
+      | ok d1 =>
+        rw [hp2] at h
+        simp only at h
+        obtain ⟨a, b, c, e, f, g, k⟩ := shape_checked (asciiLower d0.str) d1 d hp2 h
+        exact ⟨a, b, c, e, f, fun x hx => asciiLower_no_upper _ x (g x hx), k⟩
+    · have hu' : d0.str.any isUpper = false := by simpa using hu
+      simp only [tryFromCoreLowercases_eq, hu', Bool.and_false, Bool.false_eq_true, ↓reduceIte] at h
+      obtain ⟨a, b, c, e, f, g, k⟩ := shape_checked s d0 d hp h
+      refine ⟨a, b, c, e, f, ?_, k⟩
+      intro x hx
+      have hxs : x ∈ d0.str := hstr ▸ g x hx
+      rw [List.any_eq_false] at hu'
+      simpa using hu' x hxs
+
+theorem checked_never_panics (d0 : CoreDid) : (tryFromCoreChecked d0).isPanic = false := by
+  unfold tryFromCoreChecked
+  split
+  · rename_i hcv
+    unfold IotaDid.checkValidity at hcv
+    simp only [Bool.and_eq_true, beq_iff_eq] at hcv
+    obtain ⟨bs, hbs⟩ := Option.isSome_iff_exists.1 hcv.1.2
+    unfold normalize
+    simp only
+    split
+    · rfl
+    · obtain ⟨_, htne, htcls⟩ := tag_chars tagBytesLen _ bs hbs
+      have hvt : validMethodId (denorm d0.methodId).2 = true := by
+        unfold validMethodId
+        have : (denorm d0.methodId).2.isEmpty = false := by
+          cases hh : (denorm d0.methodId).2 with
+          | nil => exact absurd hh htne
+          | cons => rfl
+        simp only [this, Bool.not_false, Bool.true_and]
+        exact validMethodIdAux_plain _ (fun c hc => (htcls c hc).1)
+      unfold setMethodId
+      simp only [hvt, ↓reduceIte]
+      rfl
+  · rfl
+
+theorem parseDid_never_panics (s : Str) : (parseDid s).isPanic = false := by
+  have hp := (IdModel.Did.parseBase_no_panic s)
+  unfold parseDid
+  cases hb : parseBase s with
+  | panic m' => rw [hb] at hp; cases hp
+  | err e => rfl
+  | ok c => simp only; split <;> rfl
+
+/-- `parse`, `try_from_core` and deserialisation never panic (the `expect` in `normalize` is
+unreachable) -/
 theorem parseLower_never_panics (s : Str) : (parseLower s).isPanic = false := by
   unfold parseLower
-  have hp := (IdModel.Did.parseBase_no_panic s)
+  have h1 := parseDid_never_panics s
   cases hd : parseDid s with
-  | panic m =>
-    unfold parseDid at hd
-    cases hb : parseBase s with
-    | panic m' => rw [hb] at hp; cases hp
-    | err e => rw [hb] at hd; cases hd
-    | ok c => rw [hb] at hd; simp only at hd; split at hd <;> cases hd
+  | panic m => rw [hd] at h1; cases h1
   | err e => rfl
   | ok d0 =>
     simp only
     unfold tryFromCore
     split
-    · rename_i hcv
-      unfold IotaDid.checkValidity at hcv
-      simp only [Bool.and_eq_true, beq_iff_eq] at hcv
-      obtain ⟨bs, hbs⟩ := Option.isSome_iff_exists.1 hcv.1.2
-      unfold normalize
-      simp only
-      split
-      · rfl
-      · rename_i hcond
-        simp only [Bool.or_eq_true, beq_iff_eq, bne_iff_ne, ne_eq, not_or, Decidable.not_not] at hcond
-        obtain ⟨_, _, htcls⟩ := tag_chars tagBytesLen _ bs hbs
-        obtain ⟨_, htne, _⟩ := tag_chars tagBytesLen _ bs hbs
-        have hvt : validMethodId (denorm d0.methodId).2 = true := by
-          unfold validMethodId
-          have : (denorm d0.methodId).2.isEmpty = false := by
-            cases hh : (denorm d0.methodId).2 <;> simp_all
-          simp only [this, Bool.not_false, Bool.true_and]
-          exact validMethodIdAux_plain _ (fun c hc => (htcls c hc).1)
-        unfold setMethodId
-        simp only [hvt, ↓reduceIte]
-        rfl
-    · rfl
+    · have h2 := parseDid_never_panics (asciiLower d0.str)
+      cases hd2 : parseDid (asciiLower d0.str) with
+      | panic m => rw [hd2] at h2; cases h2
+      | err e => rfl
+      | ok d1 => exact checked_never_panics d1
+    · exact checked_never_panics d0
 
 /-- two accepted IOTA DIDs are equal exactly when their networks and tags are equal -/
 theorem iota_eq_iff (s1 s2 : Str) (d1 d2 : CoreDid) (h1 : parseLower s1 = .ok d1)
@@ -321,10 +383,9 @@ theorem iota_eq_iff (s1 s2 : Str) (d1 d2 : CoreDid) (h1 : parseLower s1 = .ok d1
   · rintro ⟨hn, ht⟩
     rw [hs1, hs2, hm1, hm2, hn, ht]
 
-/-- … and, the input being lower case, the tags are equal exactly when the tag **bytes** are -/
+/-- … and the tags are equal exactly when the tag **bytes** are (values are held in lower case) -/
 theorem tag_eq_iff_bytes (s1 s2 : Str) (d1 d2 : CoreDid) (h1 : parseLower s1 = .ok d1)
-    (h2 : parseLower s2 = .ok d2)
-    (l1 : ∀ c ∈ s1, ¬(65 ≤ c ∧ c ≤ 90)) (l2 : ∀ c ∈ s2, ¬(65 ≤ c ∧ c ≤ 90)) :
+    (h2 : parseLower s2 = .ok d2) :
     tag d1 = tag d2 ↔ tagBytes d1 = tagBytes d2 := by
   constructor
   · intro h; unfold tagBytes; rw [h]
@@ -336,14 +397,15 @@ theorem tag_eq_iff_bytes (s1 s2 : Str) (d1 d2 : CoreDid) (h1 : parseLower s1 = .
     unfold tagBytes at hb1 hb2
     obtain ⟨r1, e1, _, _, c1, _, a1⟩ := tag_decodes _ _ _ hb1
     obtain ⟨r2, e2, _, _, c2, _, a2⟩ := tag_decodes _ _ _ hb2
-    have low : ∀ (s : Str) (d : CoreDid) (r : Str), (∀ c ∈ d.str, c ∈ s) →
-        (∀ c ∈ s, ¬(65 ≤ c ∧ c ≤ 90)) → (∀ c ∈ r, IsHexChar c) → (∀ c ∈ r, c ∈ d.str) →
-        ∀ c ∈ r, IsLowerHex c := by
-      intro s d r hsub hl hc hin c hcr
-      have := hl c (hsub c (hin c hcr))
+    have low : ∀ (d : CoreDid) (r : Str), (∀ c ∈ d.str, isUpper c = false) →
+        (∀ c ∈ r, IsHexChar c) → (∀ c ∈ r, c ∈ d.str) → ∀ c ∈ r, IsLowerHex c := by
+      intro d r hl hc hin c hcr
+      have := hl c (hin c hcr)
       rcases hc c hcr with h | h
       · exact h
-      · exact absurd ⟨h.1, by omega⟩ this
+      · unfold isUpper at this
+        simp only [Bool.and_eq_false_iff, decide_eq_false_iff_not] at this
+        omega
     have mem_tag : ∀ (d : CoreDid), d.str = [100, 105, 100, 58] ++ method ++ 58 :: d.methodId →
         d.methodId = (if network d = defaultNetwork then tag d else network d ++ 58 :: tag d) →
         ∀ c ∈ tag d, c ∈ d.str := by
@@ -352,7 +414,7 @@ theorem tag_eq_iff_bytes (s1 s2 : Str) (d1 d2 : CoreDid) (h1 : parseLower s1 = .
       split <;> simp [hc]
     have q1 : ∀ c ∈ r1, c ∈ d1.str := fun c hc => mem_tag d1 hs1 hm1 c (by rw [e1]; simp [hc])
     have q2 : ∀ c ∈ r2, c ∈ d2.str := fun c hc => mem_tag d2 hs2 hm2 c (by rw [e2]; simp [hc])
-    have := hexDecodeAux_inj_lower r1 r2 bs1 a1 a2 (low s1 d1 r1 hsub1 l1 c1 q1) (low s2 d2 r2 hsub2 l2 c2 q2)
+    have := hexDecodeAux_inj_lower r1 r2 bs1 a1 a2 (low d1 r1 hsub1 c1 q1) (low d2 r2 hsub2 c2 q2)
     rw [e1, e2, this]
 
 theorem alnum_idchar (c : Nat) (h : isLowerAlnum c = true) :
@@ -418,7 +480,41 @@ theorem new_spec (bytes : List Nat) (net : Str) (hb : bytes.length = 32) (hbb : 
       ⟨3, 4 + method.length, 5 + method.length + (net ++ 58 :: prefixHexEncode bytes).length, none, none⟩⟩ =
       net ++ 58 :: prefixHexEncode bytes := by
     unfold CoreDid.methodId Core.methodIdOf; exact sl_id _ _
-  unfold tryFromCore IotaDid.checkValidity
+  have hnoup : List.any ([100, 105, 100, 58] ++ method ++ [58] ++ (net ++ 58 :: prefixHexEncode bytes)) isUpper = false := by
+    rw [List.any_eq_false]
+    intro c hc
+    simp only [List.mem_append, List.mem_cons, List.not_mem_nil, or_false] at hc
+    unfold isUpper
+    simp only [Bool.and_eq_true, decide_eq_true_eq, not_and, Nat.not_le]
+    intro h65
+    rcases hc with (((hc | hc) | hc) | hc)
+    · omega
+    · rw [hmeth] at hc; simp at hc; omega
+    · omega
+    · rcases hc with hc | hc | hc
+      · have := hall c hc
+        unfold isLowerAlnum at this
+        simp only [Bool.or_eq_true, Bool.and_eq_true, decide_eq_true_eq] at this
+        omega
+      · omega
+      · rcases encode_chars bytes hbb c hc with h1 | h1
+        · rcases h1 with h1 | h1
+          · unfold IsLowerHex at h1; omega
+          · -- upper-case hex digits never occur in the encoder's output
+            exfalso
+            unfold prefixHexEncode at hc
+            simp only [List.mem_cons, List.mem_flatMap, List.not_mem_nil, or_false] at hc
+            rcases hc with hc | hc | ⟨b, hb', hc | hc⟩
+            · omega
+            · omega
+            · have := hexDigit_lower (b / 16) (by have := hbb b hb'; omega)
+              rw [← hc] at this; unfold IsLowerHex at this; omega
+            · have := hexDigit_lower (b % 16) (by omega)
+              rw [← hc] at this; unfold IsLowerHex at this; omega
+        · omega
+  unfold tryFromCore
+  simp only [hnoup, Bool.and_false, Bool.false_eq_true, ↓reduceIte]
+  unfold tryFromCoreChecked IotaDid.checkValidity
   rw [hm0, hid0, hden]
   have hvn : validNetwork net = true := by
     unfold validNetwork
